@@ -43,6 +43,8 @@ func dispatch(kind string, t *hlib.Toks) string {
 		return caseRleDec(t)
 	case "introspect":
 		return caseIntrospect(t)
+	case "parsefields":
+		return caseParseFields(t)
 	}
 	return "UNKNOWN-KIND " + kind
 }
